@@ -4,6 +4,7 @@ import (
 	"fmt"
 	"os"
 	"strings"
+	"syscall"
 
 	"github.com/spf13/afero"
 )
@@ -188,11 +189,22 @@ func (f *File) Sync() error {
 	return err
 }
 
+// TruncateCap: a Truncate to more than this is recorded (Op.Size) but not carried out — an in-memory backend would allocate
+// the bytes, a disk would be asked for them — and answered with "no space left on device". What the caller tried to do is
+// in the trace; whoever judges a trace counts the attempt as a file of that size.
+const TruncateCap = 64 << 20
+
 func (f *File) Truncate(size int64) error {
 	op := f.op(KFTruncate, true)
+	op.Size = size
 	if inj := f.fs.before(op); inj != nil {
 		f.fs.after(op, inj.Err)
 		return inj.Err
+	}
+	if size > TruncateCap {
+		err := &os.PathError{Op: "truncate", Path: op.Path, Err: syscall.ENOSPC}
+		f.fs.after(op, err)
+		return err
 	}
 	err := f.File.Truncate(size)
 	f.fs.after(op, err)
